@@ -196,6 +196,8 @@ let run (cmd : sexp) : sexp =
   | L [A "simppv"; pfv; lo; hi; a] -> stree (Concrete.m_simplify_pv (num pfv) (optcut lo, optcut hi) (tree a))
   | L [A "cplxpv"; pfv; lo; hi; a] -> stree (Concrete.m_complexify_pv (num pfv) (optcut lo, optcut hi) (tree a))
   | L [A "cmp"; a; b] -> scmp (CmpConcrete.m_cmp (tree a) (tree b))
+  | L [A "compl"; a] -> bool_ (Intern.m_compl (tree a))
+  | L [A "nodes"; a] -> A (string_of_int (Stdlib.List.length (let rec f n = match n with Datatypes.O -> [] | Datatypes.S m -> () :: f m in f (Intern.m_nodes (tree a)))))
   | L [A "valcmp"; a; b] -> scmp (Concrete.m_val_cmp (value a) (value b))
   | L [A "varcmp"; a; b] -> scmp (Concrete.m_var_cmp (var_ a) (var_ b))
   | L [A "substring"; a; b] -> bool_ (Concrete.substring (str a) (str b))
